@@ -51,7 +51,8 @@ def rescale_box(
 
     def forward(sample: Float[ArrayLike, " ..."]) -> Float[Array, " ..."]:
         sample = jnp.asarray(sample)
-        return gradient * sample + intercept
+        # Rounding in the affine map can land a bound-valued sample just outside the new box.
+        return jnp.clip(gradient * sample + intercept, min, max)
 
     def backward(sample: Float[ArrayLike, " ..."]) -> Float[Array, " ..."]:
         sample = jnp.asarray(sample)
